@@ -19,6 +19,13 @@ computed with `fractions.Fraction` (exact).  Cases on which binary64 arithmetic 
 only when the draw is farther than 2**-40 from every exact decision boundary (count reported as skipped).
 Direct oracle: `draw < p` / cumulative-interval membership re-evaluated in exact rational arithmetic on the
 implementation's outputs, container type and row content, monotonicity / rescaling / residual / locality re-calls.
+Non-finite corner (model layer filter_px / filter_rate_x / choice_x in Decide.v): nan / +inf / -inf / negative
+probabilities, rates and weights occur per row in every stream; expected = what the current code does (nan or -inf never
+selects, +inf always, +inf rate = the 250 cap, rate <= 0 never selects, a weight row with nan -> option 0, an infinite
+weight is refused, negative weights -> count of normalised cumulative bounds below the draw).  Determinism: EVERY call is
+repeated after heap churn (arrays of the sizes about to be allocated, filled with -1e300 before the first and +1e300
+before the second call, then freed) and the two outcomes must be identical - an uninitialised result slot
+(np.empty, ufunc `where=` without `out=`) shows up as two different answers.
 """
 import json
 import math
@@ -36,7 +43,9 @@ RULE = ("filter / rate: generated (world, clock, additional key) x request index
         "probability hits the draw exactly). choice / rawchoice: 1-6 options x weights None / 1-d / per-row built from "
         "cut points (own draw -1/0/+1 ulp, repeated cuts = zero weights, dyadic), power-of-two rescalings, integer and "
         "arbitrary double weights, RESIDUAL_CHOICE in any column; malformed: two placeholders, placeholder in some rows "
-        "only, residual < 0, all-zero row, wrong number of rows. distinct = distinct case JSON; trivial = empty index")
+        "only, residual < 0, all-zero row, wrong number of rows. Non-finite corner in every stream (about 7-12% of the "
+        "values): nan, +inf, -inf, negative probabilities / rates (down to -700) / weights. Every call is made twice with "
+        "heap churn in between. distinct = distinct case JSON; trivial = empty index")
 ASSUMPTIONS = [
     "floats are the rationals they denote; the model is exact integer arithmetic over common denominators, so rounding "
     "of p/p.sum, cumsum and 1-exp(-r) is outside the theorems: compared cases are float-exact by construction (weights "
@@ -44,8 +53,11 @@ ASSUMPTIONS = [
     "exp is external: theorems assume only that r -> exp(-r) is antitone with exp(-0) = 1; per case the values come "
     "from numpy.exp",
     "draws lie in [0,1) and are multiples of 2**-53 (numpy's contract; validated on every draw seen)",
-    "non-negative weights that are not all zero (all-zero rows are refused by the implementation: 0/0 under "
-    "numpy.seterr(all='raise') set by vivarium/__init__.py); negative weights and NaN are outside the domain",
+    "the property's own theorems assume non-negative finite weights that are not all zero (all-zero rows are refused by "
+    "the implementation: 0/0 under numpy.seterr(all='raise') set by vivarium/__init__.py); nan / inf / negative inputs "
+    "are garbage-in, for which the model states and the check enforces only what the current code deterministically "
+    "does (C05_nonfinite_*, C05_nan_never_selects, C05_choice_nan_row, C05_choice_inf_refused, "
+    "C05_choice_negative_total); finite rates below about -709 (exp overflows, FloatingPointError) are not generated",
 ]
 TRUSTED = [
     "harness/props/c05.py: conversion of doubles to exact fractions and common denominators, recipes that build "
@@ -64,11 +76,13 @@ CLAIM = {
             "cumulative-weight interval contains the row's own draw (local, scale-free, residual = explicit, never a "
             "zero-weight option unless draw = 0.0 and w0 = 0, finding F-G). Every check run re-ties the model to "
             "/repo/src on ~1000 generated calls whose inputs are built from the draws read first, including "
-            "probability == draw and cumulative bound == draw exactly.",
+            "probability == draw and cumulative bound == draw exactly, and on nan/inf/negative inputs; every call is "
+            "repeated after heap churn and must give the same result (no dependence on uninitialised memory).",
     "note": "trusted: Coq kernel + vm_compute, the hand transcription of stream.py/utilities.py (sampled tie), the "
             "python harness (exact Fraction conversion), numpy.exp as an oracle table; float rounding of "
             "normalisation/cumsum/1-exp is outside the theorems (near-boundary cases of inexact inputs are skipped "
-            "and counted); negative weights / NaN / mismatched weight widths are outside the domain",
+            "and counted); mismatched weight widths are outside the domain; for nan/inf/negative inputs only the current "
+            "deterministic behaviour is pinned down, not a property-level meaning",
 }
 
 TWO53 = 2 ** 53
@@ -94,6 +108,48 @@ def lcm_den(fracs):
     for f in fracs:
         d = d * f.denominator // math.gcd(d, f.denominator)
     return d
+
+
+def xfr(v):
+    """Exact value of a python/numpy number: a Fraction, or one of the markers "nan", "inf", "-inf"."""
+    v = float(v) if not isinstance(v, int) else v
+    if isinstance(v, float):
+        if v != v:
+            return "nan"
+        if v in (float("inf"), float("-inf")):
+            return "inf" if v > 0 else "-inf"
+    return Fraction(v)
+
+
+def finite(frs):
+    return [f for f in frs if isinstance(f, Fraction)]
+
+
+def cx(f, D) -> str:
+    """Gallina xnum literal of an exact value over the denominator D."""
+    if isinstance(f, Fraction):
+        return f"(Fin {zb(f * D)})"
+    return {"nan": "XNaN", "inf": "XPInf", "-inf": "XNInf"}[f]
+
+
+def churn(seed: int, n: int, fill: float):
+    """Heap churn between two calls: allocate and free arrays of the sizes the implementation is about to allocate,
+    filled with `fill`, so that any uninitialised result slot (np.empty / ufunc `where=` without `out=`) shows a value we
+    chose - and a different one before the repeated call.  Uses no global random state."""
+    import numpy as np
+    rs = random.Random(seed)
+    junk = []
+    for size in [1, 1, max(n, 1), max(n, 1), max(n, 1), n + 1, 2 * max(n, 1)] + [rs.randint(1, 12) for _ in range(6)]:
+        for _ in range(3):
+            a = np.empty(size, dtype=float)
+            a.fill(fill)
+            junk.append(a)
+    del junk
+
+
+def same_outcome(a, b):
+    """(raised?, rows) pairs of two calls must coincide."""
+    return a == b
 
 
 def is_pow2(fr: Fraction) -> bool:
@@ -252,6 +308,8 @@ def resolve_val(rec, i, dfr):
     """-> python number (int or float).  ["dy", num, k] = num/2**k; ["int", n]; ["f", hex]; ["draw", j, delta] = draw of
     row j (None: own row i) + delta * 2**-53."""
     k = rec[0]
+    if k in ("nan", "inf", "-inf"):
+        return float(k)
     if k == "int":
         return int(rec[1])
     if k == "dy":
@@ -274,6 +332,8 @@ def resolve_val(rec, i, dfr):
 
 def gen_pval(rng, own=None):
     r = rng.random()
+    if rng.random() < 0.07:
+        return rng.choice([["nan"], ["nan"], ["inf"], ["-inf"]])      # the non-finite corner
     if r < 0.32:
         return ["draw", own, rng.choice([0, 0, 0, 1, -1])]
     if r < 0.42:
@@ -380,12 +440,20 @@ def crows(rows):
     return clist(cpair(cz(l), cz(c)) for l, c in rows)
 
 
-def cpspec(kind, nums, labs):
+def cpspec(kind, xs, labs, D):
+    """xs: exact values (Fractions or non-finite markers) over the denominator D."""
     if kind in ("float", "int", "np", "arr0"):
-        return f"(PScalar {zb(nums[0])})"
+        return f"(XScalar {cx(xs[0], D)})"
     if kind == "series":
-        return f"(PSeries {clist(cz(l) for l in labs)} {zblist(nums)})"
-    return f"(PArray {zblist(nums)})"
+        return f"(XSeries {clist(cz(l) for l in labs)} {clist(cx(x, D) for x in xs)})"
+    return f"(XArray {clist(cx(x, D) for x in xs)})"
+
+
+def raised_max(p, q):
+    """max for the 'raising never removes' re-call; a non-finite side leaves the value as it is."""
+    if p != p or q != q:
+        return p
+    return max(p, q)
 
 
 # ----------------------------------------------------------------------------------------------------------------
@@ -424,14 +492,26 @@ def run_filter(case):
         if ok:
             ok, msg = False, m
 
-    try:
-        out = stream.filter_for_probability(pop, pobj, addl)
-        code = 0
-    except Exception as e:
-        out, code, err = None, 1, e
+    def attempt():
+        try:
+            o = stream.filter_for_probability(pop, pobj, addl)
+            return o, 0, None
+        except Exception as e:
+            return None, 1, e
+
+    churn(case["salt"], n, -1e300)
+    out, code, err = attempt()
     kout, got, prob = (9, [], None) if code else observe_population(container, out)
     if prob:
         fail(prob)
+    # the result is a function of (draws, inputs): the same call after heap churn gives the same answer
+    churn(case["salt"] + 1, n, 1e300)
+    out_b, code_b, _ = attempt()
+    got_b = [] if code_b else observe_population(container, out_b)[1]
+    if (code, got) != (code_b, got_b):
+        fail(f"the same call gave two different results: kept {got} (raised={bool(code)}) and then {got_b} "
+             f"(raised={bool(code_b)}) - the result depends on something other than draws and inputs "
+             f"(probabilities {vals})")
     scalar = spec["kind"] in ("float", "int", "np", "arr0")
     per_row = [vals[0]] * n if scalar else vals
     hits = 0
@@ -451,7 +531,7 @@ def run_filter(case):
                 fail(f"kept rows {got} but exactly the rows with draw < probability are {want} "
                      f"(draws {dfl}, probabilities {per_row})")
             # raising probabilities never removes a simulant
-            bump = [max(p, resolve_val(rec, j, dfr)) for j, (p, rec) in enumerate(zip(per_row, case["bump"]))]
+            bump = [raised_max(p, resolve_val(rec, j, dfr)) for j, (p, rec) in enumerate(zip(per_row, case["bump"]))]
             try:
                 _, got2, _ = observe_population(container, stream.filter_for_probability(pop, list(bump), addl))
             except Exception as e:
@@ -468,14 +548,15 @@ def run_filter(case):
         if code == 0:
             fail(f"{len(vals)} probabilities for {n} simulants were accepted: kept {got}")
     # ---- Coq case ----
-    pfr = [Fraction(v) for v in vals]
-    D = lcm_den(dfr + pfr + [Fraction(1, TWO53)])
+    pfr = [xfr(v) for v in vals]
+    D = lcm_den(dfr + finite(pfr) + [Fraction(1, TWO53)])
     coq = cpair(zb(D), cpair(cz(KINDS[container]), cz(kout if code == 0 else KINDS[container])), crows(rows),
-                zblist(f * D for f in dfr), cpspec(spec["kind"], [f * D for f in pfr], labs),
+                zblist(f * D for f in dfr), cpspec(spec["kind"], pfr, labs, D),
                 cpair(cz(code), crows(got)))
     tags = (f"pop_{container}", f"p_{spec['kind']}", f"mal_{spec['mal']}", f"world_{case['world']['kind']}",
             "n0" if n == 0 else "n1" if n == 1 else "n2+", "hit_draw_eq_p" if hits else "no_exact_hit",
-            "repeated_labels" if len(set(labels)) < n else "distinct_labels")
+            "repeated_labels" if len(set(labels)) < n else "distinct_labels",
+            "nonfinite_p" if len(finite(pfr)) < len(pfr) else "finite_p")
     return Result(ok=ok, msg=msg, coq=coq, key=json.dumps(case, sort_keys=True) if n else None,
                   obs={"draws": dfl, "p": [repr(v) for v in vals], "raised": bool(code), "kept": got}, tags=tags)
 
@@ -485,6 +566,9 @@ def run_filter(case):
 # ----------------------------------------------------------------------------------------------------------------
 def gen_rval(rng, own=None):
     r = rng.random()
+    if rng.random() < 0.12:         # the non-finite / negative corner (finite rates stay above -700: exp overflows below)
+        return rng.choice([["nan"], ["nan"], ["inf"], ["-inf"], ["dy", -1, 1], ["int", -1], ["dy", -5, 0],
+                           ["dy", -1, 53], ["int", -700], ["f", (-0.0).hex()]])
     if r < 0.25:
         return ["hit", own, rng.choice([0, 0, 1, -1])]
     if r < 0.35:
@@ -557,19 +641,35 @@ def run_rate(case):
         if ok:
             ok, msg = False, m
 
-    try:
-        out = stream.filter_for_rate(pop, robj, addl)
-        code = 0
-    except Exception as e:
-        out, code, err = None, 1, e
+    def attempt():
+        try:
+            o = stream.filter_for_rate(pop, robj, addl)
+            return o, 0, None
+        except Exception as e:
+            return None, 1, e
+
+    churn(case["salt"], n, -1e300)
+    out, code, err = attempt()
     kout, got, prob = (9, [], None) if code else observe_population(container, out)
     if prob:
         fail(prob)
-    # the oracle table: exp(-min(rate, 250)) from numpy, evaluated in the shape the implementation uses
-    clipped = [min(float(v), 250.0) for v in vals]
+    # the result is a function of (draws, inputs): the same call after heap churn gives the same answer
+    churn(case["salt"] + 1, n, 1e300)
+    out_b, code_b, _ = attempt()
+    got_b = [] if code_b else observe_population(container, out_b)[1]
+    if (code, got) != (code_b, got_b):
+        fail(f"the same call gave two different results: kept {got} (raised={bool(code)}) and then {got_b} "
+             f"(raised={bool(code_b)}) - the result depends on something other than draws and rates (rates {vals})")
+    # the oracle table: exp(-min(rate, 250)) from numpy for the FINITE rates (and for the cap, which +inf is clipped
+    # to), evaluated as an array like the implementation does; nan stays nan, -inf gives 1 - exp(inf) = -inf
+    rx = [xfr(v) for v in vals]
+    fin_idx = [j for j, x in enumerate(rx) if isinstance(x, Fraction) or x == "inf"]
+    clipped = [250.0 if rx[j] == "inf" else min(float(vals[j]), 250.0) for j in fin_idx]
     with np.errstate(all="ignore"):
-        evals = [float(x) for x in np.exp(-np.array(clipped, dtype=float))] if clipped else []
-    pfloat = [1.0 - e for e in evals]
+        ev = [float(x) for x in np.exp(-np.array(clipped, dtype=float))] if clipped else []
+    evals = {j: e for j, e in zip(fin_idx, ev)}
+    pfloat = [(1.0 - evals[j]) if j in evals else (float("nan") if rx[j] == "nan" else float("-inf"))
+              for j in range(len(vals))]
     scalar = spec["kind"] in ("float", "int", "np", "arr0")
     per_row = [pfloat[0]] * n if scalar else pfloat
     hits = 0
@@ -588,7 +688,7 @@ def run_rate(case):
                 fail(f"kept rows {got} but the rows with draw < 1 - exp(-min(rate, 250)) are {want} "
                      f"(draws {dfl}, rates {vals}, probabilities {per_row})")
             vrow = [vals[0]] * n if scalar else vals
-            bump = [max(float(v), float(resolve_rate(rec, j, dfr))) for j, (v, rec) in enumerate(zip(vrow, case["bump"]))]
+            bump = [raised_max(float(v), float(resolve_rate(rec, j, dfr))) for j, (v, rec) in enumerate(zip(vrow, case["bump"]))]
             try:
                 _, got2, _ = observe_population(container, stream.filter_for_rate(pop, list(bump), addl))
             except Exception as e:
@@ -600,28 +700,31 @@ def run_rate(case):
         if code == 0:
             fail(f"{len(vals)} rates for {n} simulants were accepted: kept {got}")
     # ---- Coq case: exact 1 - E; skipped when the float subtraction rounds AND a draw is within 2**-50 of the bound ----
-    efr = [Fraction(e) for e in evals]
+    efr = {j: Fraction(e) for j, e in evals.items()}
     near = False
     if n and spec["mal"] is None:
-        erow = [efr[0]] * n if scalar else efr
-        for d, e, pf in zip(dfr, erow, per_row):
-            if Fraction(pf) != 1 - e and abs(d - (1 - e)) <= Fraction(1, 2 ** 50):
+        for i, d in enumerate(dfr):
+            j = 0 if scalar else i
+            if j in efr and Fraction(per_row[i]) != 1 - efr[j] and abs(d - (1 - efr[j])) <= Fraction(1, 2 ** 50):
                 near = True
-    rfr = [Fraction(v) for v in vals]
-    Dr = lcm_den(rfr)
-    D = lcm_den(dfr + efr + [Fraction(1, TWO53)])
+    Dr = lcm_den(finite(rx))
+    D = lcm_den(dfr + list(efr.values()) + [Fraction(1, TWO53)])
     tbl = {}
-    for v, e in zip(rfr, efr):
-        tbl[int(min(v * Dr, 250 * Dr))] = int(e * D)
+    for j, e in efr.items():
+        key = 250 * Dr if rx[j] == "inf" else int(min(rx[j] * Dr, 250 * Dr))
+        tbl[key] = int(e * D)
     coq = None
     if not near:
         coq = cpair(zb(D), zb(Dr), clist(cpair(zb(a), zb(b)) for a, b in sorted(tbl.items())),
                     cpair(cz(KINDS[container]), cz(kout if code == 0 else KINDS[container])), crows(rows),
-                    zblist(f * D for f in dfr), cpspec(spec["kind"], [f * Dr for f in rfr], labs),
+                    zblist(f * D for f in dfr), cpspec(spec["kind"], rx, labs, Dr),
                     cpair(cz(code), crows(got)))
     tags = (f"pop_{container}", f"r_{spec['kind']}", f"mal_{spec['mal']}", f"world_{case['world']['kind']}",
             "n0" if n == 0 else "n1" if n == 1 else "n2+", "hit_draw_eq_p" if hits else "no_exact_hit",
-            "rate_gt_250" if any(float(v) > 250 for v in vals) else "rate_le_250") + (("near_skipped",) if near else ())
+            "rate_gt_250" if any(float(v) > 250 for v in vals) else "rate_le_250",
+            "nonfinite_rate" if len(finite(rx)) < len(rx) else "finite_rate",
+            "negative_rate" if any(isinstance(x, Fraction) and x < 0 for x in rx) else "no_negative_rate") \
+        + (("near_skipped",) if near else ())
     return Result(ok=ok, msg=msg, coq=coq, key=json.dumps(case, sort_keys=True) if n else None,
                   obs={"draws": dfl, "rates": [repr(v) for v in vals], "raised": bool(code), "kept": got}, tags=tags)
 
@@ -637,9 +740,34 @@ def gen_cut(rng, own):
     return ["dy", rng.randint(0, 2 ** k), k]
 
 
+def gen_odd_row(rng, k, allow_res):
+    """A weight row from the non-finite / negative corner: nan, one sign of infinity, negative dyadic weights."""
+    flavour = rng.choice(["nan", "nan", "inf", "neg", "neg", "neg", "nan_inf"])
+    w = [["dy", rng.randint(0, 8), 2] for _ in range(k)]
+    j = rng.randrange(k)
+    if flavour in ("nan", "nan_inf"):
+        w[j] = ["nan"]
+    if flavour in ("inf", "nan_inf"):
+        w[(j + 1) % k if flavour == "nan_inf" and k > 1 else j] = [rng.choice(["inf", "-inf"])]
+        if flavour == "nan_inf" and k == 1:
+            w[j] = ["nan"]
+    if flavour == "neg":
+        w[j] = ["dy", -rng.randint(1, 8), 2]
+        if rng.random() < 0.4:
+            w[rng.randrange(k)] = ["dy", -rng.randint(1, 12), 2]
+    row = {"kind": "vals", "w": w, "res": []}
+    if allow_res and k >= 2 and rng.random() < 0.2:
+        c = rng.randrange(k)
+        if w[c][0] == "dy":
+            row["res"] = [c]
+    return row
+
+
 def gen_row(rng, k, own, allow_res=True):
     """One weight row for k options."""
     r = rng.random()
+    if rng.random() < 0.09:
+        return gen_odd_row(rng, k, allow_res)
     if r < 0.55:
         cuts = [gen_cut(rng, own) for _ in range(k - 1)]
         if k >= 3 and rng.random() < 0.4:
@@ -760,7 +888,7 @@ def resolve_row(row, i, dfr):
         assert all(Fraction(v) == f for v, f in zip(vals, fr))
     else:
         vals = [resolve_val(rec, i, dfr) for rec in row["w"]]
-        fr = [Fraction(v) for v in vals]
+        fr = [xfr(v) for v in vals]
     for c in row["res"]:
         vals[c] = None
         fr[c] = None
@@ -828,9 +956,82 @@ def margin(d, ws):
     return m
 
 
+def is_odd_row(fr):
+    return any(isinstance(f, str) or (isinstance(f, Fraction) and f < 0) for f in fr)
+
+
+def float_exact_signed(ws):
+    """Rows with negative weights: exact in binary64 if the total is +-2**e and all w/W are coarse dyadics."""
+    W = sum(ws, Fraction(0))
+    return W != 0 and is_pow2(abs(W)) and all(((w / W) * 2 ** 40).denominator == 1 and abs(w / W) <= 1024 for w in ws)
+
+
+def choose_signed(d, ws):
+    """(draw > cumsum(w / W)).sum() in exact arithmetic, any sign of the total."""
+    W = sum(ws, Fraction(0))
+    acc, cnt = Fraction(0), 0
+    for w in ws:
+        acc += w
+        if acc / W < d:
+            cnt += 1
+    return cnt
+
+
+def margin_signed(d, ws):
+    W = sum(ws, Fraction(0))
+    acc, m = Fraction(0), Fraction(10)
+    for w in ws:
+        acc += w
+        if acc != 0:
+            m = min(m, abs(d - acc / W))
+    return m
+
+
+def model_choice(n, k, p, rows_fr, dfr):
+    """What the Gallina model [choice_x] says for a weight matrix from the non-finite / negative corner:
+    ("raise", None) or ("ok", [option per simulant]) plus the per-simulant exact rows (None for nan rows)."""
+    if n == 0:
+        return "ok", [], []
+    rows0 = [rows_fr[0]] * n if p["shape"] == "1d" else rows_fr
+    any_res = any(f is None for fr in rows0 for f in fr)
+    any_nonfin = any(isinstance(f, str) for fr in rows0 for f in fr)
+    if any_res and any_nonfin:
+        return "raise", None, None
+    if any(("nan" not in fr) and any(f in ("inf", "-inf") for f in fr) for fr in rows0):
+        return "raise", None, None
+    resolved = []
+    if any_res:
+        if not all(sum(1 for f in fr if f is None) == 1 for fr in rows0):
+            return "raise", None, None
+        for fr in rows0:
+            r = exact_resolution(fr)
+            if r is None:
+                return "raise", None, None
+            resolved.append(r)
+    else:
+        resolved = [None if "nan" in fr else list(fr) for fr in rows0]
+    if any(r is not None and sum(r, Fraction(0)) == 0 for r in resolved):
+        return "raise", None, None
+    if len(resolved) != n:
+        return "raise", None, None
+    ks = [0 if r is None else choose_signed(d, r) for d, r in zip(dfr, resolved)]
+    if any(kk >= k for kk in ks):
+        return "raise", None, None
+    return "ok", ks, resolved
+
+
 def cwspec(p, rows_fr, U):
+    def cw(f):
+        if f is None:
+            return "Residual"
+        if f == "nan":
+            return "WNaN"
+        if f in ("inf", "-inf"):
+            return "WInf"
+        return f"(Wt {zb(f * U)})"
+
     def crow(fr):
-        return clist("Residual" if f is None else f"(Wt {zb(f * U)})" for f in fr)
+        return clist(cw(f) for f in fr)
     if p is None:
         return "WNone"
     if p["shape"] == "1d":
@@ -871,11 +1072,14 @@ def decide_case(case, labels, dfl, dfr, call, recall):
         wobj = build_weights(p, rows_vals)
     else:
         wobj = None
-    try:
-        out = call(cobj, wobj)
-        code = 0
-    except Exception as e:
-        out, code, err = None, 1, e
+    def attempt():
+        try:
+            return call(cobj, wobj), 0, None
+        except Exception as e:
+            return None, 1, e
+
+    churn(case.get("meta_i", 0), n * max(k, 1), -1e300)
+    out, code, err = attempt()
     got = []
     if code == 0:
         back = {v: j for j, v in enumerate(cvals)}
@@ -887,6 +1091,14 @@ def decide_case(case, labels, dfl, dfr, call, recall):
                 got.append(-1)
             else:
                 got.append(back[v])
+    # the result is a function of (draws, inputs): the same call after heap churn gives the same answer
+    churn(case.get("meta_i", 0) + 1, n * max(k, 1), 1e300)
+    out_b, code_b, _ = attempt()
+    if code != code_b or (code == 0 and out.tolist() != out_b.tolist()):
+        fail(f"the same call gave two different results: {None if code else out.tolist()} and then "
+             f"{None if code_b else out_b.tolist()} - the result depends on something other than draws and weights")
+    if p is not None and any(is_odd_row(fr) for fr in rows_fr):
+        return decide_odd(case, labels, dfl, dfr, k, p, rows_fr, code, got, err, ok, msg)
     # per-simulant exact weights
     if p is None:
         per = [[Fraction(1)] * k for _ in range(n)]
@@ -976,6 +1188,43 @@ def decide_case(case, labels, dfl, dfr, call, recall):
                  obs={"draws": dfl, "raised": bool(code), "chosen": got, "class": cls,
                       "weights": [[None if f is None else str(f) for f in fr] for fr in rows_fr][:6]}, tags=tags)
     return res
+
+
+def decide_odd(case, labels, dfl, dfr, k, p, rows_fr, code, got, err, ok, msg):
+    """Weight matrices containing nan / inf / negative weights: outside the property's domain, but the result must
+    still be what the current code deterministically does (model [choice_x]): a row with nan -> option 0, an infinite
+    weight -> refused, negative weights -> the count of normalised cumulative bounds below the draw."""
+    n = len(labels)
+    verdict, ks, resolved = model_choice(n, k, p, rows_fr, dfr)
+    def fx(r):
+        return float_exact(r) if all(w >= 0 for w in r) else float_exact_signed(r)
+
+    near = verdict == "ok" and any(r is not None and not fx(r) and margin_signed(d, r) <= Fraction(1, 2 ** 40)
+                                   for d, r in zip(dfr, resolved))
+    if ok and not near:
+        if verdict == "raise" and code == 0:
+            ok, msg = False, f"weights {rows_fr} (nan/inf/negative corner) were accepted: chose {got}; the current code refuses them"
+        elif verdict == "ok" and code:
+            ok, msg = False, f"weights {rows_fr} (nan/inf/negative corner) raised {type(err).__name__}: {err}"
+        elif verdict == "ok" and got != ks:
+            ok, msg = False, (f"weights {[[str(f) for f in fr] for fr in rows_fr]} (nan/inf/negative corner), draws {dfl}: "
+                              f"chose {got}, the current semantics gives {ks}")
+    coq = None
+    if not near:
+        wfr = [f for fr in rows_fr for f in fr if isinstance(f, Fraction)]
+        U = lcm_den(wfr) if wfr else 1
+        D = lcm_den(dfr + [Fraction(1, TWO53)])
+        coq = cpair(zb(D), zb(U), zblist(f * D for f in dfr), cnat(k), cwspec(p, rows_fr, U),
+                    cpair(cz(code), clist(cz(g) for g in got) if code == 0 else "[]"))
+    flat = [f for fr in rows_fr for f in fr]
+    tags = (f"choices_{case['choices']['kind']}_{case['choices']['type']}", f"k{k}", f"p_{p['shape']}_{p['container']}",
+            "n0" if n == 0 else "n1" if n == 1 else "n2+", "odd_weights",
+            "w_nan" if "nan" in flat else "w_no_nan", "w_inf" if ("inf" in flat or "-inf" in flat) else "w_no_inf",
+            "w_negative" if any(isinstance(f, Fraction) and f < 0 for f in flat) else "w_no_negative",
+            "odd_refused" if verdict == "raise" else "odd_decided") + (("near_skipped",) if near else ())
+    return Result(ok=ok, msg=msg, coq=coq, key=json.dumps(case, sort_keys=True) if n else None,
+                  obs={"draws": dfl, "raised": bool(code), "chosen": got, "class": None,
+                       "weights": [[None if f is None else str(f) for f in fr] for fr in rows_fr][:6]}, tags=tags)
 
 
 def gen_choices(rng):
